@@ -27,7 +27,7 @@ def configs():
     for name in ("Adam", "AdamW"):
         for wd in (0, 0.1):
             for mx in (False, True):
-                for betas in ((0.9, 0.999), (0.5, 0.9)):
+                for betas in ((0.9, 0.999), (0.5, 0.9), (0.0, 0.5)):
                     for eps in (1e-8, 1e-3):
                         out.append({"opt": name, "weight_decay": wd, "maximize": mx, "betas": list(betas), "eps": eps})
     return out
